@@ -168,6 +168,46 @@ def c08_block_decoder(rep, crate, cfg):
                     extra_exits.append((b, s_))
             rep.check(n_iter == 1, R1, f.key, "intake-exhausts-iterator", where,
                       "the accumulation loop has the exit 'packet iterator exhausted'", {"exit_edges": ["bb%d->bb%d" % e for e in exits]}, cfg)
+        # C02-R4 / C08-R1 'intake-unconditional': every packet of the batch is *recorded*: within one iteration no live
+        # path goes from 'the iterator produced a packet' back to the loop head without passing the call
+        # received_esi.insert(..).  (Panicking branches - the block-id assert - are not live; leaving the loop is judged by
+        # 'intake-total' below.)  A guard that silently drops some packets ('malformed', 'ESI too large') makes a
+        # determined block undecodable, although every other rule about what happens *after* the insert still holds.
+        if ok_loop:
+            lp0 = ls.loops[0]
+            body = ls.loops_raw[lp0["head"]]
+            live = f.cfg._can_reach_exit()
+            ins_blocks = set()
+            for b in body:
+                t_ = f.blocks[b]["term"]
+                if t_["t"] != "call" or f.blocks[b]["cleanup"]:
+                    continue
+                ct = ls.tb.call_term(b, t_)
+                if ct[0] == "call" and isinstance(ct[1], str) and ct[1].endswith("::insert") and ct[2] and \
+                        N(ls.canon(ct[2][0])) == ("ref", fld(r["esi_set"])):
+                    ins_blocks.add(b)
+            entries = []
+            for b in sorted(body):
+                t_ = f.blocks[b]["term"]
+                if t_["t"] == "switch" and ls.tb.operand(b, None, t_["discr"]) == ("discr", lp0.get("next_term")):
+                    entries += [s_ for s_ in f.cfg.succ[b] if s_ in body and s_ in live]
+            seen, st_, skipping = set(), list(entries), []
+            while st_:
+                x = st_.pop()
+                if x in seen or x in ins_blocks:
+                    continue
+                seen.add(x)
+                for s_ in f.cfg.succ[x]:
+                    if s_ not in live or s_ not in body:
+                        continue
+                    if s_ == lp0["head"]:
+                        skipping.append("bb%d->bb%d" % (x, s_))
+                    else:
+                        st_.append(s_)
+            rep.check(len(ins_blocks) == 1 and bool(entries) and not skipping, R1, f.key, "intake-unconditional", where,
+                      "every packet the iterator yields reaches received_esi.insert(..) before the next iteration: no guard "
+                      "drops a packet unrecorded (the only branch allowed before the insert is one whose other arm panics)",
+                      {"insert_blocks": sorted(ins_blocks), "iteration_entries": entries, "skipping_back_edges": sorted(skipping)}, cfg)
         # C08-R6: what happens after the intake loop depends on the accumulated state only.  A user variable that is
         # written inside the loop (a per-call counter, a flag "something new arrived", the last packet) and read after
         # it makes the answer depend on how the same set of packets is split over calls.
